@@ -129,10 +129,15 @@ class BaseNode(Node):
                         raise Exception("Could not convert raw value to type:",self.code,value)
         return value
 
+    def has_value_raw(self):
+        """ Is there a raw value (a number zero is one, the empty placeholder of a reference or expression is not)
+        """
+        return not (self.value_raw is None or (isinstance(self.value_raw, str) and self.value_raw==''))
+
     def set_value(self, value=None):
         """ Set value using value_raw or arbitrary value
         """
-        if value is None and self.value_raw:
+        if value is None and self.has_value_raw():
             self.value = self.cast_value()
         elif value is not None:
             self.value = value
